@@ -124,6 +124,29 @@ GENS["FieldRange"] = {
             "mk = func(base int, next refco.Iter) refco.Iter {", "\treturn refco.New(func(y2 *refco.Y) {", "\t\ty2.Yield(base)", "\t\tx.cur = next", "\t\ty2.Yield(base + 1)", "\t})", "}",
             "x.cur = mk(10, mk(20, nil))", "for it := x.cur; it.MoveNext(); {", "\tv := it.Current()", "\tYIELD(v)", "}", "YIELD(99)", "RETURN"]}
 
+# ---- one closure of eta shape per class of callee the optimiser distinguishes (coq/EtaModel.v): name ->
+# (class term of the model, arguments are the parameters in order, literal and callee have identical types, variable, body)
+ETA_CASES = {
+    "EtaPkg": ("CPkgFunc 0", True, True, "t", ["t := func(x int) int { return tr.Twice(x) }", "return []int{t(4)}"]),
+    "EtaGenericFull": ("CPkgFunc 1", True, True, "b", ["b := func(x int) int { return tr.Id[int](x) }", "return []int{b(2)}"]),
+    "EtaGenericInferred": ("CPartialGeneric 1", True, False, "a", ["a := func(x int) int { return tr.Id(x) }", "return []int{a(1)}"]),
+    "EtaGenericPartial": ("CPartialGeneric 2", True, False, "p", ["p := func(x, y int) int { return tr.Pair[int](x, y) }", "return []int{p(3, 4)}"]),
+    "EtaVar": ("CVar 0", True, True, "g", ["f := func(x int) int { return x + 1 }", "g := func(x int) int { return f(x) }", "a := g(1)",
+                                          "f = func(x int) int { return x * 10 }", "return []int{a, g(1)}"]),
+    "EtaMethodUser": ("CMethodUser 0 0", True, True, "get", ["cur := &tr.Cell{V: 1, Next: &tr.Cell{V: 2}}", "get := func() int { return cur.Get() }", "a := get()",
+                                                             "cur = cur.Next", "return []int{a, get()}"]),
+    "EtaMethodValue": ("CMethodUser 1 0", True, True, "val", ["c := tr.Cell{V: 1}", "val := func() int { return c.Val() }", "a := val()", "c.V = 9", "return []int{a, val()}"]),
+    "EtaCallResult": ("CCallResult 0", True, True, "g", ["n := 0", "mk := func() func() int { n++; return func() int { return n } }", "g := func() int { return mk()() }",
+                                                         "a := g()", "return []int{a, g(), n}"]),
+    "EtaBuiltin": ("CBuiltin 0", True, False, "l", ["l := func(s []int) int { return len(s) }", "return []int{l([]int{1, 2, 3})}"]),
+    "EtaConversion": ("CConversion 0", True, False, "c", ["c := func(x int) int64 { return int64(x) }", "return []int{int(c(2))}"]),
+    "EtaPermuted": ("CPkgFunc 2", False, True, "flip", ["flip := func(a, b int) int { return tr.Sub(b, a) }", "return []int{flip(10, 3)}"]),
+    "EtaRepeated": ("CPkgFunc 2", False, True, "dup", ["dup := func(a, b int) int { return tr.Sub(a, a) }", "return []int{dup(10, 3)}"]),
+    "EtaForward": ("CPkgFunc 2", True, True, "fwd", ["fwd := func(a, b int) int { return tr.Sub(a, b) }", "return []int{fwd(10, 3)}"]),
+}
+for _n, (_c, _am, _ti, _v, _lines) in ETA_CASES.items():
+    BYSTANDERS[_n] = _lines
+
 def render(mode, pkg="oc"):
     """mode: 'co' (input of the compiler) or 'ref' (reference rendering on refco)."""
     out = ["package %s" % pkg, ""]
